@@ -7,6 +7,7 @@ from typing import Any, Dict, List, Tuple
 from pacti import iocontract
 from pacti.contracts import PolyhedralIoContract, PolyhedralIoContractCompound
 from pacti.terms import polyhedra
+from pacti.utils.errors import ContractFormatError
 
 
 def read_contracts_from_file(  # noqa: WPS231 too much cognitive complexity
@@ -20,6 +21,7 @@ def read_contracts_from_file(  # noqa: WPS231 too much cognitive complexity
 
     Raises:
         ValueError: Unsupported contract attempted to be read.
+        ContractFormatError: The file is not a list of well-formed contract entries.
 
     Returns:
         A list of contracts with the elements of the file.
@@ -29,24 +31,40 @@ def read_contracts_from_file(  # noqa: WPS231 too much cognitive complexity
     with open(file_name) as f:
         file_data = json.load(f)
     # make sure that data is an array of dictionaries
-    assert isinstance(file_data, list)
+    if not isinstance(file_data, list):
+        raise ContractFormatError(f"The file {file_name} should contain a list of contracts")
     for entry in file_data:
-        assert isinstance(entry, dict)
-        assert "type" in entry
+        if not isinstance(entry, dict):
+            raise ContractFormatError(f"Each entry of {file_name} should be a dictionary")
+        for kw in ("type", "name", "data"):
+            if kw not in entry:
+                raise ContractFormatError(f'Keyword "{kw}" not found in an entry of {file_name}')
+        if not isinstance(entry["name"], str):
+            raise ContractFormatError(f"The name of each contract in {file_name} should be a string")
     # we load each contract according to the type
     contracts: List[Any] = []
     names = []
     for entry in file_data:
+        data = entry["data"]
         if entry["type"] == "PolyhedralIoContract_machine":
-            polyhedra.serializer.validate_contract_dict(entry["data"], entry["name"], machine_representation=True)
-            contracts.append(PolyhedralIoContract.from_dict(entry["data"]))
+            polyhedra.serializer.validate_contract_dict(data, entry["name"], machine_representation=True)
+            contracts.append(PolyhedralIoContract.from_dict(data))
             names.append(entry["name"])
         elif entry["type"] == "PolyhedralIoContract":
-            polyhedra.serializer.validate_contract_dict(entry["data"], entry["name"], machine_representation=False)
-            contracts.append(PolyhedralIoContract.from_strings(**entry["data"]))
+            polyhedra.serializer.validate_contract_dict(data, entry["name"], machine_representation=False)
+            contracts.append(
+                PolyhedralIoContract.from_strings(
+                    data["assumptions"], data["guarantees"], data["input_vars"], data["output_vars"]
+                )
+            )
             names.append(entry["name"])
         elif entry["type"] == "PolyhedralIoContractCompound":
-            contracts.append(PolyhedralIoContractCompound.from_strings(**entry["data"]))
+            polyhedra.serializer.validate_compound_contract_dict(data, entry["name"])
+            contracts.append(
+                PolyhedralIoContractCompound.from_strings(
+                    data["assumptions"], data["guarantees"], data["input_vars"], data["output_vars"]
+                )
+            )
             names.append(entry["name"])
         else:
             raise ValueError()
